@@ -210,6 +210,15 @@ def gen_hard(ctx, n):
         out.append(Case(p, u0, y, mu, P, rng.random() < 0.6, rng.choice([1e-6, 1e-10]), tag="hard", **kw))
     return out
 
+def gen_corpus(ctx):
+    """stored runs that exercise rare line-search paths (corpus/PANOCOCP/*.json); always run first"""
+    import glob, os
+    out = []
+    for f in sorted(glob.glob(os.path.join(VERIF, "corpus", "PANOCOCP", "*.json"))):
+        for c in json.load(open(f))["cases"]:
+            out.append(Case(c["prob"], c["u0"], c["y"], c["mu"], c["P"], c["always"], c["tol"], stop_eval=c.get("stop_eval", -1), tag="corpus"))
+    return out
+
 def gen_stopscan(ctx, n):
     """L-BFGS-only runs of fixed problems with stop() injected at EVERY sweep-event index (every line-search position)"""
     rng = ctx.rng
@@ -377,7 +386,7 @@ def attach(ctx, scale=0.35, extra_oracle=None):
 
 def run_corr(ctx, prefix, scale, extra_oracle=None):
     if not build_driver(ctx, "ocp"): return
-    cases = (gen_dyadic(ctx) + gen_plateau(ctx, max(4, int(scale * ctx.n(12, 60)))) + gen_stopscan(ctx, max(2, int(scale * ctx.n(6, 40)))) +
+    cases = (gen_corpus(ctx) + gen_dyadic(ctx) + gen_plateau(ctx, max(4, int(scale * ctx.n(12, 60)))) + gen_stopscan(ctx, max(2, int(scale * ctx.n(6, 40)))) +
              gen_hard(ctx, max(20, int(scale * ctx.n(150, 1500)))) + gen_random(ctx, max(40, int(scale * ctx.n(250, 2500)))))
     outs = run_driver(ctx, "ocp", "".join(c.to_input() for c in cases), timeout=1500)
     if outs is None or len(outs) != len(cases):
